@@ -588,6 +588,25 @@ static int merge_hashes(int argc, char** argv) {
   return 0;
 }
 
+/* CPU seconds consumed so far by process `pid` (all its threads) and its scheduler state, from /proc. The watchdog's
+ * wall-clock period says nothing on a loaded machine: "no progress" counts as a hang only if the child burned CPU for
+ * most of that period (a loop that does not end) or slept through it (blocked); a child that was runnable but got little
+ * CPU is being starved, and the period starts again. */
+static double child_cpu(pid_t pid, char* state) {
+  char path[64], buf[1024];
+  snprintf(path, sizeof path, "/proc/%d/stat", (int)pid);
+  FILE* f = fopen(path, "r");
+  *state = '?';
+  if (!f) return -1;
+  size_t n = fread(buf, 1, sizeof buf - 1, f);
+  fclose(f);
+  buf[n] = 0;
+  char* rp = strrchr(buf, ')');
+  unsigned long long ut = 0, st = 0;
+  if (!rp || sscanf(rp + 2, "%c %*d %*d %*d %*d %*d %*u %*u %*u %*u %*u %llu %llu", state, &ut, &st) != 3) return -1;
+  return (double)(ut + st) / (double)sysconf(_SC_CLK_TCK);
+}
+
 int main(int argc, char** argv) {
   if (argc < 2) { usage(); return 2; }
   if (!strcmp(argv[1], "merge-hashes")) return merge_hashes(argc - 2, argv + 2);
@@ -664,19 +683,32 @@ int main(int argc, char** argv) {
     int st = 0;
     uint64_t last_no = (uint64_t)-1;
     double last_change = now_s();
-    int hung = 0;
+    int hung = 0, starved = 0;
+    char cstate;
+    double cpu_at_change = 0;
+    bool slept_throughout = true;
     for (;;) {
       pid_t r = waitpid(pid, &st, WNOHANG);
       if (r == pid) break;
       if (r < 0 && errno != EINTR) { perror("waitpid"); return 2; }
       uint64_t cn = S->crumb_case_no + S->evaluations;
-      if (cn != last_no) { last_no = cn; last_change = now_s(); }
+      if (cn != last_no) { last_no = cn; last_change = now_s(); cpu_at_change = -1; slept_throughout = true; starved = 0; }
+      else if (now_s() - last_change > 1.0 && cpu_at_change < 0) { cpu_at_change = child_cpu(pid, &cstate); if (cpu_at_change < 0) cpu_at_change = 0; } /* sampled only when a case takes longer than a second */
       else if (now_s() - last_change > O.hang_secs) {
+        double used = child_cpu(pid, &cstate) - (cpu_at_change < 0 ? 0 : cpu_at_change);
+        bool busy = used >= 0.6 * O.hang_secs, blocked = used < 0.05 * O.hang_secs && cstate == 'S' && slept_throughout;
+        if (!busy && !blocked && starved < 10) { /* runnable but short of CPU: not a hang, the period starts again */
+          starved++;
+          last_change = now_s();
+          cpu_at_change = -1;
+          continue;
+        }
         kill(pid, SIGKILL);
         waitpid(pid, &st, 0);
         hung = 1;
         break;
       }
+      if (now_s() - last_change > 2.0 && ((uint64_t)(now_s() * 2) & 1)) { char c2; if (child_cpu(pid, &c2) >= 0 && c2 != 'S') slept_throughout = false; }
       struct timespec ts = {0, 20 * 1000 * 1000};
       nanosleep(&ts, NULL);
     }
@@ -698,8 +730,9 @@ int main(int argc, char** argv) {
         restarts++;
         continue;
       }
-      if (strcmp(O.prop, "C01") != 0) {
-        /* termination is only C01's property; elsewhere a double hang is inconclusive */
+      if (strcmp(O.prop, "C01") != 0 || starved >= 10) {
+        /* termination is only C01's property; elsewhere a double hang is inconclusive - and so is, anywhere, a child that
+         * was neither burning CPU nor asleep through ten watchdog periods (a starved machine) */
         status = "hang-inconclusive";
         S->machinery = 1;
         snprintf(S->machinery_msg, sizeof S->machinery_msg, "no progress for %d s (twice) at case #%llu desc=%s",
